@@ -177,6 +177,12 @@ class Dumper:
                     op = c.expr.set_results_name(c.resultsName, list_all_matches=True)    # the copy initExprGroups makes
                     if op is c.expr or not self._plain_rename(c.expr, op):
                         raise Unsupported("Each: named repetition whose copy is not a plain rename")
+                    # F-01c: initExprGroups makes TWO copies of a named repetition's body (one for `required`, one for the repeatable
+                    # operands) and later tests `e in tmpReqd` with ParserElement.__eq__ = vars(self) == vars(other).  An Each inside
+                    # that body grows attributes (its own lazily computed groups) the first time it is parsed, so the two copies stop
+                    # being equal DURING the parse; the model's equality classes are those at dump time.
+                    if any(isinstance(x, pp.Each) for x in c.expr.visit_all()):
+                        raise Unsupported("Each: named repetition operand containing an Each (equality of its copies changes during the parse: F-01c)")
             else:
                 op = c
             objs += [c, op]
